@@ -8,6 +8,10 @@
 //   X <newxta> <hex xml>           parse_XML_buffer(xml, Document, newxta) (type checker included); prints every
 //                                  diagnostic, the element its XPath selects in a DOM of the same input, and the
 //                                  oracle's verdict about line / columns
+//   XT / XFT                       the same with the element tree of the DOM in the result / through parse_XML_file
+//   XTQ / XFTQ                     the same, then - as a verifier does - every query the reader stored from the <queries> element is
+//                                  handed to one TigaPropertyBuilder: parse(formula, location, options); the diagnostics of the query
+//                                  parses are diagnostics of the same document and are judged by the same oracle
 #include "common.hpp"
 #include <fstream>
 #include <cstdio>
@@ -231,7 +235,7 @@ static std::string inText(const std::string& text, uint32_t line, uint32_t col)
 }
 
 // `viaFile`: the same bytes through parse_XML_file (the file readers ask libxml2 to drop blank text nodes, the buffer reader does not)
-static void opXml(bool newxta, const std::string& xml, bool with_tree, bool viaFile = false)
+static void opXml(bool newxta, const std::string& xml, bool with_tree, bool viaFile = false, bool withQueries = false)
 {
     std::ostringstream os;
     std::string exc;
@@ -258,7 +262,21 @@ static void opXml(bool newxta, const std::string& xml, bool with_tree, bool viaF
     } catch (std::exception& e) {
         exc = excName(e);
     }
-    os << "{\"rc\":" << rc << ",\"exc\":" << jstr(exc) << ",\"p0\":" << p0 << ",\"p1\":" << tracker.position;
+    size_t nq = 0;
+    std::string qexc;
+    if (withQueries && exc.empty()) {
+        TigaPropertyBuilder pb(doc);
+        for (const auto& q : doc.get_queries()) {
+            ++nq;
+            try {
+                pb.parse(q.formula.c_str(), q.location, q.options);
+            } catch (std::exception& e) {
+                qexc += excName(e) + ";";
+            }
+        }
+    }
+    os << "{\"rc\":" << rc << ",\"exc\":" << jstr(exc) << ",\"p0\":" << p0 << ",\"p1\":" << tracker.position << ",\"nq\":" << nq
+       << ",\"qexc\":" << jstr(qexc);
     // the independent DOM of the same bytes (same parser options as the library's reader)
     xmlDocPtr dom = xmlReadMemory(xml.c_str(), (int)xml.size(), "", nullptr,
                                   XML_PARSE_NOCDATA | XML_PARSE_HUGE | XML_PARSE_RECOVER | XML_PARSE_NOERROR | XML_PARSE_NOWARNING);
@@ -329,11 +347,11 @@ int main(int argc, char** argv)
             std::string hex;
             is >> nx >> part >> hex;
             opLex(nx != 0, part, unhex(hex));
-        } else if (op == "X" || op == "XT" || op == "XFT") {
+        } else if (op == "X" || op == "XT" || op == "XFT" || op == "XTQ" || op == "XFTQ") {
             int nx;
             std::string hex;
             is >> nx >> hex;
-            opXml(nx != 0, unhex(hex), op != "X", op == "XFT");
+            opXml(nx != 0, unhex(hex), op != "X", op[1] == 'F', op.back() == 'Q');
         } else {
             std::cout << "{\"bad-op\":true}\n";
         }
